@@ -183,10 +183,56 @@ func stressDag(r *hx.Run, rng *hx.Rng, sub uint64, g, iters, nEnt int) {
 			}
 		}(i)
 	}
+	// misusers (in two of three runs): goroutines that unlock what is not held, concurrently with the correct users,
+	// and recover the panic.  Unlock(e) / RUnlock(x, e) with e never registered (x = an entity the others are using:
+	// the lookup must fail before anything of x is touched), and once RLock(p); Unlock(p) on a private entity p (wrong
+	// mode: p's mutex stays frozen, its registration stays).  The correct users must not notice any of it.
+	misusers := rng.Intn(3)
+	frozen := 0
+	for i := 0; i < misusers; i++ {
+		wg.Add(1)
+		grng, _ := rng.Fork()
+		private := nEnt + 10 + i
+		frozen++
+		go func() {
+			defer wg.Done()
+			misuse := func(what string, call func()) {
+				if p := hx.Safely(call); p == "" {
+					r.Fail("missing-panic", "DAGMutex."+what+" did not panic in the stress run although the entity is not held in that mode",
+						sig("api", "DAGMutex", "oracle", "stress-missing-panic", "call", what))
+				}
+			}
+			for k := 0; k < iters/4; k++ {
+				switch grng.Intn(3) {
+				case 0:
+					misuse("Unlock(unregistered)", func() { d.Unlock(nEnt + 5) })
+				case 1:
+					x := grng.Intn(nEnt)
+					misuse("RUnlock(x, unregistered)", func() { d.RUnlock(x, nEnt+5) })
+				case 2:
+					misuse("RUnlock(unregistered, x)", func() { d.RUnlock(nEnt+5, grng.Intn(nEnt)) })
+				}
+				if k == iters/8 {
+					d.RLock(private)
+					misuse("Unlock(read-locked)", func() { d.Unlock(private) })
+				}
+				dwell(grng)
+			}
+		}()
+	}
+	r.Count(fmt.Sprintf("dagstress-misusers:%d", misusers))
 	if waitOrStall(r, &wg, "DAGMutex") {
 		w := &dagWorld{d: d, nEnt: nEnt}
-		if o := w.obs(); strings.ContainsAny(strings.TrimSpace(o), "123456789") || w.mutexes().Size() != 0 || w.counts().Size() != 0 {
-			r.Fail("registry", "after the stress run the DAGMutex still has registered entities: "+o, sig("api", "DAGMutex", "oracle", "registry-not-empty"))
+		// what is left: the private entities of the misusers (registration and read lock in place, mutex frozen)
+		left := 0
+		for i := 0; i < misusers; i++ {
+			if c, _ := w.counts().Get(nEnt + 10 + i); c == 1 && w.mutexes().Has(nEnt+10+i) {
+				left++
+			}
+		}
+		if o := w.obs(); strings.ContainsAny(strings.TrimSpace(o), "123456789") || w.mutexes().Size() != frozen || w.counts().Size() != frozen || left != frozen {
+			r.Fail("registry", fmt.Sprintf("after the stress run the DAGMutex registry is not what the calls account for (%d misusers each left one read-locked private entity): %s, %d mutexes, %d counters",
+				misusers, o, w.mutexes().Size(), w.counts().Size()), sig("api", "DAGMutex", "oracle", "registry-not-empty"))
 		}
 	}
 	if n := overlaps.Load(); n > 0 {
